@@ -875,6 +875,172 @@ theorem symMerge_sorted (hT : TotalPreorder less) (fuel : Nat) (d : Array α) (a
         · simp only [hgt, ↓reduceIte]
           exact fin a m (Or.inl rfl) (Or.inl rfl) (by omega) (by omega) (by omega) (by omega) (by omega) _ rfl
 
+/-! ### stable -/
+
+/-- from position `s` on, `data[:n]` consists of ordered blocks of length `bs` (the last one possibly shorter) -/
+inductive Blocks (d : Array α) (bs n : Nat) : Nat → Prop
+  | last (s : Nat) : n ≤ s + bs → S less d s n → Blocks d bs n s
+  | cons (s : Nat) : s + bs ≤ n → S less d s (s + bs) → Blocks d bs n (s + bs) → Blocks d bs n s
+
+variable {less} in
+theorem Blocks.congr {d d' : Array α} {bs n s : Nat} (h : Blocks less d bs n s) (he : ∀ k, s ≤ k → get d' k = get d k) :
+    Blocks less d' bs n s := by
+  induction h with
+  | last s h1 h2 => exact .last s h1 (h2.congr (fun k k1 _ => he k k1))
+  | cons s h1 h2 _ ih => exact .cons s h1 (h2.congr (fun k k1 _ => he k k1)) (ih (fun k hk => he k (by omega)))
+
+variable {less} in
+theorem Blocks.uncons {d : Array α} {bs n s : Nat} (h : Blocks less d bs n s) (hs : s + bs ≤ n) :
+    S less d s (s + bs) ∧ Blocks less d bs n (s + bs) := by
+  cases h with
+  | last _ h1 h2 =>
+    have : n = s + bs := by omega
+    subst this
+    exact ⟨h2, .last _ (by omega) (fun i j _ _ _ => by omega)⟩
+  | cons _ h1 h2 h3 => exact ⟨h2, h3⟩
+
+variable {less} in
+theorem Blocks.final {d : Array α} {bs n s : Nat} (h : Blocks less d bs n s) (hs : n ≤ s + bs) : S less d s n := by
+  cases h with
+  | last _ h1 h2 => exact h2
+  | cons _ h1 h2 h3 =>
+    have : n = s + bs := by omega
+    subst this
+    exact h2
+
+/-- first phase of `stable`: insertion sort block by block -/
+theorem blocksLoop_sorted (hT : TotalPreorder less) (n bs fuel a b : Nat) (d : Array α) (hbs : 1 ≤ bs) (hab : b = a + bs)
+    (hn : n ≤ d.size) (hf1 : 1 ≤ fuel) (hf : n + 2 ≤ b + fuel) :
+    (blocksLoop less n bs fuel a b d).size = d.size ∧
+    (∀ k, k < a → get (blocksLoop less n bs fuel a b d) k = get d k) ∧
+    Blocks less (blocksLoop less n bs fuel a b d) bs n a := by
+  induction fuel generalizing a b d with
+  | zero => omega
+  | succ f ih =>
+    unfold blocksLoop
+    by_cases hle : b ≤ n
+    · rw [if_pos hle]
+      obtain ⟨r1, r2, r3⟩ := insertionSort_sorted less hT d a b (by omega)
+      obtain ⟨q1, q2, q3⟩ := ih b (b + bs) (insertionSort less d a b) rfl (by omega) (by omega) (by omega)
+      refine ⟨by omega, fun k hk => ?_, ?_⟩
+      · rw [q2 k (by omega), r2 k (Or.inl hk)]
+      · subst hab
+        exact .cons a hle (r3.congr (fun k _ k2 => q2 k k2)) q3
+    · rw [if_neg hle]
+      obtain ⟨r1, r2, r3⟩ := insertionSort_sorted less hT d a n hn
+      exact ⟨r1, fun k hk => r2 k (Or.inl hk), .last a (by omega) r3⟩
+
+/-- one merge pass: ordered blocks of length `bs` become ordered blocks of length `2 * bs` -/
+theorem mergePass_sorted (hT : TotalPreorder less) (n bs fuel a b : Nat) (d : Array α) (hbs : 1 ≤ bs) (hab : b = a + 2 * bs)
+    (hn : n ≤ d.size) (hf1 : 1 ≤ fuel) (hf : n + 2 ≤ b + fuel) (h : Blocks less d bs n a) :
+    (mergePass less n bs fuel a b d).size = d.size ∧
+    (∀ k, k < a → get (mergePass less n bs fuel a b d) k = get d k) ∧
+    Blocks less (mergePass less n bs fuel a b d) (2 * bs) n a := by
+  induction fuel generalizing a b d with
+  | zero => omega
+  | succ f ih =>
+    unfold mergePass
+    by_cases hle : b ≤ n
+    · rw [if_pos hle]
+      obtain ⟨u1, u2⟩ := h.uncons (by omega)
+      obtain ⟨u3, u4⟩ := u2.uncons (by omega)
+      have e : a + bs + bs = b := by omega
+      rw [e] at u3 u4
+      obtain ⟨F, T⟩ := symMerge_sorted less hT (b - a) d a (a + bs) b (by omega) (by omega) (by omega) (Nat.le_refl _) u1 u3
+      obtain ⟨q1, q2, q3⟩ := ih b (b + 2 * bs) (symMerge less (b - a) d a (a + bs) b) rfl (by have := F.size; omega)
+        (by omega) (by omega) (u4.congr (fun k hk => F.out k (Or.inr hk)))
+      refine ⟨by have := F.size; omega, fun k hk => ?_, ?_⟩
+      · rw [q2 k (by omega), F.out k (Or.inl hk)]
+      · subst hab
+        exact .cons a hle (T.congr (fun k _ k2 => q2 k k2)) q3
+    · rw [if_neg hle]
+      dsimp only
+      by_cases hm : a + bs < n
+      · rw [if_pos hm]
+        obtain ⟨u1, u2⟩ := h.uncons (by omega)
+        have u3 := u2.final (by omega)
+        obtain ⟨F, T⟩ := symMerge_sorted less hT (n - a) d a (a + bs) n (by omega) hm hn (Nat.le_refl _) u1 u3
+        exact ⟨F.size, fun k hk => F.out k (Or.inl hk), .last a (by omega) T⟩
+      · rw [if_neg hm]
+        exact ⟨rfl, fun _ _ => rfl, .last a (by omega) (h.final (by omega))⟩
+
+/-- the merge passes: block length doubles until one block covers everything -/
+theorem mergeLoop_sorted (hT : TotalPreorder less) (n fuel bs : Nat) (d : Array α) (hbs : 1 ≤ bs) (hn : n ≤ d.size)
+    (hf : n ≤ bs + fuel) (h : Blocks less d bs n 0) :
+    S less (mergeLoop less n fuel bs d) 0 n := by
+  induction fuel generalizing bs d with
+  | zero => exact h.final (by omega)
+  | succ f ih =>
+    unfold mergeLoop
+    by_cases hlt : bs < n
+    · rw [if_pos hlt]
+      obtain ⟨q1, _, q3⟩ := mergePass_sorted less hT n bs n 0 (2 * bs) d hbs (by omega) hn (by omega) (by omega) h
+      rw [Nat.mul_comm bs 2]
+      exact ih (2 * bs) _ (by omega) (by omega) (by omega) q3
+    · rw [if_neg hlt]
+      exact h.final (by omega)
+
+/-- **stable** leaves `data[:n]` in order -/
+theorem stable_sorted (hT : TotalPreorder less) (d : Array α) (n : Nat) (hn : n ≤ d.size) :
+    S less (stable less d n) 0 n := by
+  by_cases h0 : n = 0
+  · subst h0; exact fun i j _ _ _ => by omega
+  · unfold stable
+    obtain ⟨r1, _, r3⟩ := blocksLoop_sorted less hT n blockSize n 0 blockSize d (by decide) (by omega) hn (by omega)
+      (by unfold blockSize; omega)
+    exact mergeLoop_sorted less hT n n blockSize _ (by decide) (by omega) (by unfold blockSize; omega) r3
+
 end sorted
+
+theorem get_of_lt [Inhabited α] (d : Array α) (k : Nat) (hk : k < d.size) : get d k = d[k] := by
+  unfold get
+  rw [Array.getD_eq_getD_getElem?, Array.getElem?_eq_getElem hk]
+  rfl
+
+theorem pairwise_of_S [Inhabited α] (less : α → α → Bool) (d : Array α) (h : S less d 0 d.size) :
+    d.toList.Pairwise (fun a b => less a b = true) := by
+  rw [List.pairwise_iff_getElem]
+  intro i j hi hj hij
+  have hi' : i < d.size := by simpa using hi
+  have hj' : j < d.size := by simpa using hj
+  have := h i j (by omega) hij hj'
+  rw [get_of_lt d i hi', get_of_lt d j hj'] at this
+  simpa using this
+
+/-- **`sort.Stable` sorts** when `Less` is the non-strict version of a total preorder: every earlier element of the
+    output is `less`-related to every later one -/
+theorem goStable_sorted (less : α → α → Bool) (hT : TotalPreorder less) (l : List α) :
+    (goStable less l).Pairwise (fun a b => less a b = true) := by
+  cases l with
+  | nil =>
+    have := goStable_perm less ([] : List α)
+    rw [List.perm_nil.mp this]
+    exact List.Pairwise.nil
+  | cons x xs =>
+    haveI : Inhabited α := ⟨x⟩
+    have hp := (goStable_perm less (x :: xs)).length_eq
+    have hs := stable_sorted less hT (x :: xs).toArray (x :: xs).length (by simp)
+    unfold goStable at hp ⊢
+    have hsz : (stable less (x :: xs).toArray (x :: xs).length).size = (x :: xs).length := by
+      simpa using hp
+    exact pairwise_of_S less _ (hs.mono (Nat.le_refl 0) (Nat.le_of_eq hsz))
+
+theorem fuzzyLess_totalPreorder : TotalPreorder (fun a b : Nat × Int => decide (a.2 ≥ b.2)) := by
+  constructor
+  · intro x y
+    simp only [ge_iff_le, decide_eq_true_eq]
+    omega
+  · intro x y z
+    simp only [ge_iff_le, decide_eq_true_eq]
+    omega
+
+/-- the fuzzy library's final sort permutes its matches -/
+theorem fuzzyStable_perm (ms : List (Nat × Int)) : (fuzzyStable ms).Perm ms := goStable_perm _ ms
+
+/-- **the fuzzy library's final sort sorts**: although its `Less` (`Score >=`) is not a strict order, the result of
+    Go's `sort.Stable` is ordered by non-increasing score -/
+theorem fuzzyStable_sorted (ms : List (Nat × Int)) : (fuzzyStable ms).Pairwise (fun a b => a.2 ≥ b.2) := by
+  have := goStable_sorted _ fuzzyLess_totalPreorder ms
+  exact this.imp (fun h => by simpa using h)
 
 end Wtf.GoSort
